@@ -94,6 +94,7 @@ def evaluate(cases):
             a = json.loads(outl[2 * i])
             b = json.loads(outl[2 * i + 1])
             listed = [f["file"] for f in (a["frames"] or []) if f]
+            listed += [f for f in a.get("symfiles", []) if f not in listed]          # ... and what /symbolicate/v5 itself reports there
             listed_other = [f["file"] for f in (b["frames"] or []) if f and f["file"] not in listed]
             rng = K.SplitMix64(it[5])
             kind = it[4]
@@ -140,6 +141,15 @@ def evaluate(cases):
     flat = [v for r in res for v in r]
     if len(flat) != len(cases):
         raise K.TieBroken("verdict count mismatch %d vs %d" % (len(flat), len(cases)))
+    # the property's last sentence, decided on the two API answers alone: a path /symbolicate/v5 reports for the offset is accepted by /source/v1
+    for i, (c, req, l) in enumerate(zip(cases, requested, outl2)):
+        o = json.loads(l)
+        resp = o["resp"]
+        # accepted = the source text came back, or a read of a file was at least attempted (the source files do not exist on disk)
+        refused = not (isinstance(resp, dict) and "error" not in resp) and not o["reads"]
+        if req in o.get("symfiles", []) and refused and flat[i] % 10 != 2:
+            c["_out"] = "/symbolicate/v5 reports %r for this offset, /source/v1 refuses it: %s" % (req, str(resp)[:200])
+            flat[i] = flat[i] - flat[i] % 10 + 2
     return flat
 
 
